@@ -132,6 +132,35 @@ type GenObs struct {
 	ClientEOF map[int]bool // connection id -> the agent closed it after reading everything (clean)
 	ClientErr map[int]string
 	UpEvents  map[string][]string
+	AgentLog  []string // what the agent itself logged at error level during this generation (capped)
+}
+
+// logCapture collects the agent's own error-level log lines: a scaled-down product timeout that expires on a starved
+// machine is reported there ("BUG: timeout flushing", "couldn't stop feeder in time", ...).
+type logCapture struct {
+	mu    sync.Mutex
+	lines []string
+}
+
+func (l *logCapture) Write(p []byte) (int, error) {
+	l.mu.Lock()
+	if len(l.lines) < 60 {
+		s := strings.TrimSpace(string(p))
+		if len(s) > 400 {
+			s = s[:400] + "..."
+		}
+		l.lines = append(l.lines, s)
+	}
+	l.mu.Unlock()
+	return len(p), nil
+}
+
+func (l *logCapture) take() []string {
+	l.mu.Lock()
+	defer l.mu.Unlock()
+	out := l.lines
+	l.lines = nil
+	return out
 }
 
 // Obs is the observation of a scenario.
@@ -611,6 +640,13 @@ func Run(sc Scenario, work string, hk Hooks) (*Obs, error) {
 		return nil, err
 	}
 	obs := &Obs{Scenario: sc, SentGen: map[string]int{}, Bound: bound}
+	lc := &logCapture{}
+	logger.SetOutput(lc)
+	logger.SetLogLevel(logger.ErrorLevel)
+	defer func() {
+		logger.SetLogLevel(logger.FatalLevel)
+		logger.SetOutput(os.Stderr)
+	}()
 	expectedSoFar := map[string]bool{}
 	genOfMsg := func(clockAtGenStart []int64, c int64) int {
 		g := 0
@@ -760,6 +796,7 @@ func Run(sc Scenario, work string, hk Hooks) (*Obs, error) {
 		for _, u := range ups {
 			gobs.UpEvents[u.Name] = u.Events()
 		}
+		gobs.AgentLog = lc.take()
 		obs.Gens = append(obs.Gens, gobs)
 	}
 	for _, u := range ups {
